@@ -59,3 +59,18 @@ def regime_tags(diff, args):
     if diff.Nthermo >= 2: tags.append('Nthermo2')
     if diff.N > 1: tags.append('multisite')
     return tags
+
+
+def resolved_by_denser_mesh(name, Nthermo, measure, m4, levels=(8, 12)):
+    """A violation measured as m4 (>0) with the default k-point density is attributed to Brillouin-zone integration
+    accuracy iff the same measure shrinks on denser meshes: m(8) <= m4 and m(12) <= m4/2. `measure(diff)` returns the
+    non-negative violation measure for a calculator. Returns (resolved, [m8, m12])."""
+    ms = []
+    for N in levels:
+        d = get_calc(name, Nthermo, NGFmax=N)
+        try:
+            ms.append(float(measure(d)))
+        except Exception:
+            ms.append(float('inf'))
+        d.clearcache()
+    return (ms[0] <= m4 and ms[-1] <= 0.5 * m4), ms
